@@ -1,0 +1,40 @@
+//go:build verif
+
+// Instrumentation for the verification harness in /verif. Compiled only with
+// -tags verif; adds accessors, changes no behaviour.
+package encoding
+
+import cbor "github.com/fxamacker/cbor/v2"
+
+// VerifOrderedMapCBOR gives the harness direct access to the ordered field map.
+type VerifOrderedMapCBOR struct{ m *structFieldsCBOR }
+
+func VerifNewOrderedMapCBOR() *VerifOrderedMapCBOR {
+	return &VerifOrderedMapCBOR{m: newStructFieldsCBOR()}
+}
+func (o *VerifOrderedMapCBOR) Add(key int, val []byte) error { return o.m.Add(key, cbor.RawMessage(val)) }
+func (o *VerifOrderedMapCBOR) Get(key int) ([]byte, bool)    { v, ok := o.m.Get(key); return v, ok }
+func (o *VerifOrderedMapCBOR) Delete(key int)                { o.m.Delete(key) }
+func (o *VerifOrderedMapCBOR) Has(key int) bool              { return o.m.Has(key) }
+func (o *VerifOrderedMapCBOR) Keys() []int                   { return append([]int(nil), o.m.Keys...) }
+func (o *VerifOrderedMapCBOR) NumFields() int                { return len(o.m.Fields) }
+func (o *VerifOrderedMapCBOR) ToCBOR(em cbor.EncMode) ([]byte, error) {
+	return o.m.ToCBOR(em)
+}
+func (o *VerifOrderedMapCBOR) FromCBOR(dm cbor.DecMode, data []byte) error {
+	return o.m.FromCBOR(dm, data)
+}
+
+// VerifOrderedMapJSON gives the harness direct access to the ordered JSON field map.
+type VerifOrderedMapJSON struct{ m *structFieldsJSON }
+
+func VerifNewOrderedMapJSON() *VerifOrderedMapJSON {
+	return &VerifOrderedMapJSON{m: newStructFieldsJSON()}
+}
+func (o *VerifOrderedMapJSON) Add(key string, val []byte) error { return o.m.Add(key, val) }
+func (o *VerifOrderedMapJSON) Get(key string) ([]byte, bool)    { v, ok := o.m.Get(key); return v, ok }
+func (o *VerifOrderedMapJSON) Delete(key string)                { o.m.Delete(key) }
+func (o *VerifOrderedMapJSON) Keys() []string                   { return append([]string(nil), o.m.Keys...) }
+func (o *VerifOrderedMapJSON) NumFields() int                   { return len(o.m.Fields) }
+func (o *VerifOrderedMapJSON) ToJSON() ([]byte, error)          { return o.m.ToJSON() }
+func (o *VerifOrderedMapJSON) FromJSON(data []byte) error       { return o.m.FromJSON(data) }
